@@ -205,6 +205,13 @@ where
         )
     }
 
+    /// Verification hook: the ids (stream keys) of the datagrams that are
+    /// currently being reconstructed.
+    #[cfg(feature = "verif-hooks")]
+    pub fn verif_active_ids(&self) -> Vec<IpFragId<CustomChannelId>> {
+        self.active.iter().map(|(id, _)| id.clone()).collect()
+    }
+
     /// Returns a buffer to the pool so it can be re-used.
     pub fn return_buf(&mut self, buf: IpDefragPayloadVec) {
         self.finished_data_bufs.push(buf.payload);
